@@ -1738,7 +1738,61 @@ func (w *ResponseWriter) WriteMsg(res *dns.Msg) error {
 	// restart at the initial interval on a later failure.
 	w.cache.store.resetMatchingFailures(q, res.CheckingDisabled, w.clientScope)
 
-	return w.ResponseWriter.WriteMsg(res)
+	return w.ResponseWriter.WriteMsg(w.boundTTLs(res, mt, cutUntil))
+}
+
+// boundTTLs lowers the TTLs of the reply that carries a freshly resolved
+// answer to the lifetime the entry stored from it was just given: the
+// smallest record TTL under the cache's ceiling, the covering RRSIGs'
+// expiration, the negative TTL, and the delegation cut's deadline. Every
+// later hit already counts down from that lifetime; the first reply used
+// to relay the authority's TTLs as received, so a client (or a cache
+// behind this one) could hold a record past its signature's expiration or
+// past the point where this resolver itself would let go of it. TTLs are
+// only ever lowered, and the caller's message is left untouched.
+func (w *ResponseWriter) boundTTLs(res *dns.Msg, mt dnsutil.ResponseType, cutUntil time.Time) *dns.Msg {
+	switch mt {
+	case dnsutil.TypeSuccess, dnsutil.TypeReferral, dnsutil.TypeNXDomain, dnsutil.TypeNoRecords:
+	default:
+		return res
+	}
+	if !dnsutilHasRecords(res) {
+		return res
+	}
+	life := w.cache.store.positive.ttl.Calculate(dnsutil.CalculateCacheTTL(filterCacheableAnswer(res), mt))
+	if !cutUntil.IsZero() {
+		if left := time.Until(cutUntil); left < life {
+			life = left
+		}
+	}
+	if life < 0 {
+		life = 0
+	}
+	limit := uint32(life / time.Second) //nolint:gosec // bounded by the cache ceiling
+	over := false
+	for _, sec := range [][]dns.RR{res.Answer, res.Ns, res.Extra} {
+		for _, rr := range sec {
+			if rr.Header().Rrtype != dns.TypeOPT && rr.Header().Ttl > limit {
+				over = true
+			}
+		}
+	}
+	if !over {
+		return res
+	}
+	out := res.Copy()
+	for _, sec := range [][]dns.RR{out.Answer, out.Ns, out.Extra} {
+		for _, rr := range sec {
+			if rr.Header().Rrtype != dns.TypeOPT && rr.Header().Ttl > limit {
+				rr.Header().Ttl = limit
+			}
+		}
+	}
+	return out
+}
+
+func dnsutilHasRecords(m *dns.Msg) bool {
+	return len(m.Answer)+len(m.Ns) > 0
 }
 
 // cacheableResolutionFailure admits only failures that describe shared
